@@ -237,6 +237,23 @@ def r4(R4, cfg, F):
         ok = ok and len(gm) == 1 and ('call', df[0].bb) in ib.origins(gm[0].args[1], passthrough=pt2) and ib.origins(rem[0].args[1]) == {('arg', 2)}
         ok = ok and ib.dominates(gm[0].bb, rem[0].bb)
     R4.check(ok, cfg, ib.path, 'reverse-edge-removed-for-every-dropped-dependency', 'DepsGraph::insert must remove asset_key from the rdeps of every dependency that is in the old set but not in the new one (old.difference(new))', ib.loc())
+    # (d) nodes are never deleted one by one: a node whose last dependent went away may still be a cached, reloadable asset
+    nrem = 0
+    for fb in F.fn_bodies():
+        for c in fb.calls():
+            if not c.callee or not c.args or c.args[0]['k'] not in ('copy', 'move'):
+                continue
+            ty = c.args[0]['place']['ty']
+            onmap = bool(re.search(r'HashMap<hot_reloading::records::Dependency, hot_reloading::dependencies::GraphNode', ty)) and ty.startswith('&mut') \
+                and c.callee.name in ('remove', 'remove_entry', 'retain', 'drain', 'extract_if')
+            onentry = bool(re.search(r'hash_map::OccupiedEntry<.*hot_reloading::records::Dependency, hot_reloading::dependencies::GraphNode', ty)) \
+                and c.callee.name in ('remove', 'remove_entry')
+            if onmap or onentry:
+                nrem += 1
+                R4.bad(cfg, fb.path, 'graph-node-deleted', '`%s` deletes a node of the dependency graph: the node may be an asset that is still cached and reloadable, '
+                       'which would then stop following its source (only a whole-graph reset on clear() is allowed)' % c.callee.best, c.loc())
+    if nrem == 0:
+        R4.ok(cfg, D + 'DepsGraph', 'no-single-node-deletion')
     # (c) forward edges and type replaced
     st = [(s['place'], s['rv']) for bbx, _, s in ib.assigns() if s['place']['p'] and isinstance(s['place']['p'][-1], dict) and s['place']['p'][-1].get('n') in ('deps', 'typ')
           and s['place']['p'][-1].get('of') == D + 'GraphNode' and not ib.blocks[bbx]['cleanup']]
